@@ -3,7 +3,7 @@ from __future__ import annotations
 
 import importlib
 
-OP_MODULES = ["contracts.c05", "contracts.c06", "contracts.c11", "contracts.c13", "contracts.c40"]
+OP_MODULES = ["contracts.c05", "contracts.c06", "contracts.c11", "contracts.c13", "contracts.c40", "contracts.c17"]
 MONITOR_MODULES = ["contracts.c26"]
 
 
